@@ -25,6 +25,9 @@ theorem ctrl_sound (i : Instr) (s s' : State) (h : ctrlSpec i s = some s') : sem
   all_goals first
     | (cases hs : s.exec <;> simp_all [sem, semExec, semCode, semStk, stkOp, Lens.exec, instr]; done)
     | (cases hs : s.code <;> simp_all [sem, semExec, semCode, semStk, stkOp, Lens.exec, instr]; done)
+    | (cases hs : s.index <;> simp_all [sem, semIndex]; done)
+    | (cases hs : s.int <;> simp_all [sem, semIndex]; done)
+    | (simp_all [sem, semIndex]; done)
     | simp at h
 
 /-! ## EXEC.LOOP runs a well-behaved body exactly destination-many times -/
